@@ -163,10 +163,17 @@ type gen struct {
 	tid   int
 	last  int
 	fault bool
+	// partial: multi-address AutoAssigns (2..5) of few hosts against small, nearly full blocks, with
+	// CAS conflicts injected on a quarter of the allocating block writes (partial fill + conflict)
+	partial bool
 }
 
 func (g *gen) newLine() string {
 	h := g.h
+	if g.partial {
+		return fmt.Sprintf("new hosts=2 handles=%d pools=%s cool=0 strict=%d maxblk=0", 2+h.Intn(2),
+			rt.Pick(h, []string{"10.0.0.0/29/30", "10.0.0.0/28/30", "10.0.0.0/29/31"}), h.Intn(2))
+	}
 	hosts := 2 + h.Intn(2)
 	handles := 2 + h.Intn(3)
 	var pools string
@@ -223,9 +230,15 @@ func (g *gen) beginLine() string {
 	}
 	bid := h.Intn(len(e.Blocks))
 	size := func(b int) int { ones, bits := e.Blocks[b].Mask.Size(); return 1 << uint(bits-ones) }
+	if g.partial && h.Chance(0.75) {
+		if hid == 0 {
+			hid = 1
+		}
+		return fmt.Sprintf("begin %d autoassign host=%d h=%d n=%d", g.tid, h.Intn(2)*h.Intn(2), hid, 2+h.Intn(4))
+	}
 	switch k := h.Intn(20); {
 	case k < 8:
-		return fmt.Sprintf("begin %d autoassign host=%d h=%d n=%d", g.tid, host, hid, 1+h.Intn(3))
+		return fmt.Sprintf("begin %d autoassign host=%d h=%d n=%d", g.tid, host, hid, 1+h.Intn(4))
 	case k < 10:
 		return fmt.Sprintf("begin %d assignip host=%d h=%d b=%d o=%d", g.tid, host, hid, bid, h.Intn(size(bid)))
 	case k < 14:
@@ -280,6 +293,9 @@ func joinInts(xs []int) string {
 }
 
 func (g *gen) pickFault(verb string) string {
+	if g.partial {
+		return ipamkv.FNone
+	}
 	if !g.fault {
 		return ipamkv.FNone
 	}
@@ -303,8 +319,12 @@ func (g *gen) runGenerated() {
 	h, r := g.h, g.r
 	g.tid, g.last = 0, -1
 	g.fault = h.Intn(2) == 0
+	g.partial = h.Intn(5) == 0
 	r.Exec(g.newLine())
 	rounds := 2 + h.Intn(4)
+	if g.partial {
+		rounds = 3 + h.Intn(4)
+	}
 	for i := 0; i < rounds; i++ {
 		n := 1 + h.Intn(3)
 		for j := 0; j < n; j++ {
@@ -323,7 +343,12 @@ func (g *gen) runGenerated() {
 			}
 			g.last = tid
 			c := r.Sc.Peek(tid)
-			r.Exec(fmt.Sprintf("step %d %s", tid, g.pickFault(c.Verb)))
+			f := g.pickFault(c.Verb)
+			if _, isBlk := c.Key.(model.BlockKey); g.partial && isBlk && c.Verb == ipamkv.VUpdate &&
+				r.Ctx[tid] != nil && r.Ctx[tid].Op == "autoassign" && h.Chance(0.25) {
+				f = ipamkv.FConflict
+			}
+			r.Exec(fmt.Sprintf("step %d %s", tid, f))
 		}
 		r.Exec("quiesce")
 		if h.Chance(0.15) {
@@ -336,7 +361,7 @@ func main() {
 	h := rt.New()
 	defer h.Close()
 	h.Rule = "case = one IPAM world (2-3 hosts, 2-4 handles, 1-2 pools of 2..4 blocks of 2..8 addresses, cooldown 0/300s, strict affinity on/off, block cap) + 2..5 rounds of 1..3 CONCURRENT client operations " +
-		"{autoassign, assignip, releaseips, releasebyhandle, claim, releaseaffinity, releasehostaffinities} interleaved at every backend call by a seeded scheduler, half of the cases with injected CAS conflicts / datastore errors / crashes; " +
+		"{autoassign (1..4 addresses), assignip, releaseips, releasebyhandle, claim, releaseaffinity, releasehostaffinities} interleaved at every backend call by a seeded scheduler, half of the cases with injected CAS conflicts / datastore errors / crashes; one case in five is a partial-fill case: multi-address AutoAssigns (2..5) against small nearly-full blocks with a CAS conflict injected on a quarter of the allocating block writes; " +
 		"distinct = distinct full op+schedule trace; non-trivial = case with >=2 threads interleaved inside one round or any injected fault"
 	o := &oracle{h: h}
 	mk := func() *ipamkv.Runner {
